@@ -60,7 +60,14 @@ def snap_command(input_workload, output_file, ticks_per_second, force=False):
             # Modify arrival_seconds if it's set (not empty)
             if row['arrival_seconds'].strip():
                 original = float(row['arrival_seconds'])
-                snapped = math.floor(original * ticks_per_second) / ticks_per_second
+                # largest tick whose boundary does not exceed the original value
+                # (the float product can land just below or above an exact boundary)
+                tick = math.floor(original * ticks_per_second)
+                while (tick + 1) / ticks_per_second <= original:
+                    tick += 1
+                while tick / ticks_per_second > original:
+                    tick -= 1
+                snapped = tick / ticks_per_second
                 row['arrival_seconds'] = snapped
 
             writer.writerow(row)
